@@ -341,8 +341,8 @@ Definition producer_block (cfg : scfg) (ers fallback : bool) (buf : list zseq) (
   end.
 
 (* round 2: the same block handed to the copier with the position [pos] of the block in the frame (what validation needs:
-   an offset may reach into the earlier blocks of the frame).  [producer_block] is the instance pos = 0, i.e. the code as
-   it is: ZSTD_buildSeqStore starts every block from ZSTD_sequencePosition {0,0,0}. *)
+   an offset may reach into the earlier blocks of the frame).  [producer_block] is the instance pos = 0, i.e. the code
+   before fix: e3dc2db, where ZSTD_buildSeqStore started every block from ZSTD_sequencePosition {0,0,0}. *)
 Definition producer_block_at (cfg : scfg) (ers fallback : bool) (buf : list zseq) (nb capacity srcSize : N) (rep : reps)
   (pos : N) : prodres :=
   match post_process buf nb capacity srcSize with
